@@ -290,6 +290,9 @@ package gohlslib
 //@        && has(s.server.pathHandlers, partPath(s.prefix, s.id, s.nextPartID)))
 //@   ensures forall(k, old(has(s.server.pathHandlers, k)) ==> has(s.server.pathHandlers, k))
 //@   ensures storage.fileOpen(old(s.nextPart.segment).storage) && handlersOK(s.server)
+//@   ensures [C03] local (result == nil && s.isLeading && s.variant == MuxerVariantLowLatency) ==> (s.partTargetDuration >= old(s.nextPart).getDuration()
+//@        && forall(j, (0 <= j && j < len(old(s.nextPart.segment).parts)) ==> s.partTargetDuration >= old(s.nextPart.segment).parts[j].getDuration())
+//@        && forall(i, j, (0 <= i && i < len(s.segments) && isF(s.segments[i]) && 0 <= j && j < len(asF(s.segments[i]).parts)) ==> s.partTargetDuration >= asF(s.segments[i]).parts[j].getDuration()))
 //@ end
 
 
@@ -579,6 +582,10 @@ package gohlslib
 //@   ensures result == nil ==> openSeg(s)
 //@   ensures result == nil ==> (s.variant != MuxerVariantMPEGTS ==> (s.nextPartID == old(s.nextPartID) + 1 && s.nextPart.startDTS == nextDTS))
 //@   ensures result == nil ==> cfg(s)
+//@   ensures [C03] local (result == nil && s.isLeading) ==> forall(j, (0 <= j && j < len(s.segments)) ==> s.targetDuration >= round(real(s.segments[j].getDuration()) / 1000000000.0))
+//@   ensures [C05,C18] local (result == nil && s.segmentDeleteCount == old(s.segmentDeleteCount) + 1 && old(len(s.segments)) >= 1) ==>
+//@        (calls("muxerServer.unregisterPath") >= 1 && (callarg("muxerServer.unregisterPath", calls("muxerServer.unregisterPath") - 1, 1) == old(s.segments[0]).getPath()
+//@         || callarg("muxerServer.unregisterPath", 0, 1) == old(s.segments[0]).getPath()))
 //@   loop 1 invariant 0 <= i && i <= 7 && len(s.segments) == i && s.variant == MuxerVariantLowLatency
 //@   loop 1 invariant forall(k, (0 <= k && k < i) ==> (s.segments[k] != nil && isG(s.segments[k]) && ref(s.segments[k]) != 0))
 //@   atcall muxerServer.registerPath s.segmentDeleteCount == old(s.segmentDeleteCount) && s.nextSegmentID == old(s.nextSegmentID) + 1
